@@ -129,6 +129,9 @@ func main() {
 			if err != nil {
 				fmt.Printf("     error: %v\n", err)
 			}
+			if n := len(res); n > 0 && res[n-1].Kind == "dead" {
+				fmt.Printf("     note: history ended at slot %d, the active validator set ran empty\n", res[n-1].Plan.Slot)
+			}
 			totalBlocks += len(c.Blocks)
 			summarize(c, res, *quiet)
 		}
